@@ -713,3 +713,8 @@ pub mod mapper {
     use super::*;
     #[verifier::external_body] pub fn map_stats(stats: &Stats) -> (r: BytesS) { unimplemented!() }
 }
+
+impl System {
+    // repair F70: disconnects the clients of the user (units client_disconnect / user_disconnect); interior mutation of the client manager only
+    #[verifier::external_body] pub fn delete_clients_for_user(&self, user_id: u32) { unimplemented!() }
+}
